@@ -207,6 +207,37 @@ def run_interp_production(ctx, nt, k, chooser=None, assume=None, split=frozenset
     return I, st, v, r
 
 
+def grammar_params(which, I, P, st):
+    """abstract values of the grammar parameters of each MIR-backed grammar"""
+    if which == "interpreter":
+        return interp_params(I, P, st)
+    if which == "data_parser":
+        st.frames[0]["counter"] = I.new_atom("usize", "counter", 0, (1 << 48))
+        return [RefV((0, "vm", ())), RefV((0, "counter", ())), TopV("&str", tag=("input",))]
+    if which == "print":
+        return [RefV((0, "vm", ())), TopV("&str", tag=("input",))]
+    if which == "preprocessor":
+        st.frames[0]["pctx"] = fresh_value(I, P, "util::preprocessor_util::Context", "pctx")
+        st.frames[0]["pout"] = fresh_value(I, P, "util::preprocessor_util::Output", "pout")
+        return [RefV((0, "pctx", ())), RefV((0, "pout", ())), TopV("&str", tag=("input",))]
+    raise Unsupported("grammar " + which)
+
+
+def run_production(ctx, which, nt, k, chooser=None, assume=None, split=frozenset(), pre=None, overrides=None, hints=None):
+    P = ctx.program
+    G = ctx.gram(which)
+    I = Interp(P, assume=assume, split=split)
+    if hints:
+        I.range_hints.update(hints)
+    st = machine_state(I, P)
+    params = grammar_params(which, I, P, st)
+    if pre:
+        pre(I, st)
+    r = ProdRunner(G, I, st, params, chooser, overrides)
+    v = r.run(nt, k)
+    return I, st, v, r
+
+
 def run_split(fn_run, split, limit=2048):
     """trace partitioning: fn_run(assume, split) -> result ; returns [(assume, result)]"""
     out = []
